@@ -54,7 +54,8 @@ NAMINGS = [
 ]
 I_SLOTS = list(uprob.BASE_SLOTS)
 # conditional effects whose condition is (headed by) a quantifier: `when (exists(T v) {...})`
-QUICK_EXTRA = [(("a1.eff2", 31),), (("a1.eff2", 32),), (("a2.eff1", 31),)]
+#   and a real constant with a finite decimal expansion that is not a binary fraction (m += 1/10)
+QUICK_EXTRA = [(("a1.eff2", 31),), (("a1.eff2", 32),), (("a2.eff1", 31),), (("a1.eff2", 33),), (("a2.eff2", 33),)]
 Q2_SLOTS = ["a1.pre1", "a1.eff1", "a1.eff2", "a2.eff1", "goal", "init", "undef"]
 
 
